@@ -1,5 +1,6 @@
 import asyncio
-from collections.abc import Collection
+from collections.abc import Collection, Coroutine
+from typing import Any
 
 from kopf._cogs.clients import api, errors
 from kopf._cogs.configs import configuration
@@ -27,9 +28,27 @@ async def scan_resources(
         _read_new_apis(groups=groups, settings=settings, logger=logger),
     }
     resources: set[references.Resource] = set()
-    for coro in asyncio.as_completed(coros):
-        resources.update(await coro)
+    for result in await _gather(coros):
+        resources.update(result)
     return resources
+
+
+async def _gather(
+        coros: Collection[Coroutine[Any, Any, Collection[references.Resource]]],
+) -> Collection[Collection[references.Resource]]:
+    """
+    Run the requests in parallel; cancel them all if the scanning is cancelled or has failed.
+
+    Unlike with :func:`asyncio.as_completed`, no requests are left behind as orphaned tasks
+    when the scanning task is cancelled (e.g. on the operator exit): they would go on talking
+    to the API while the operator is stopping, and would be "hung" tasks in the end.
+    """
+    tasks = [asyncio.create_task(coro) for coro in coros]
+    try:
+        return await asyncio.gather(*tasks)
+    finally:
+        for task in tasks:
+            task.cancel()  # no effect on those already finished
 
 
 async def _read_old_api(
@@ -52,8 +71,8 @@ async def _read_old_api(
             )
             for version_name in rsp['versions']
         }
-        for coro in asyncio.as_completed(coros):
-            resources.update(await coro)
+        for result in await _gather(coros):
+            resources.update(result)
     return resources
 
 
@@ -79,8 +98,8 @@ async def _read_new_apis(
             for group_dat in items
             for version in group_dat['versions']
         }
-        for coro in asyncio.as_completed(coros):
-            resources.update(await coro)
+        for result in await _gather(coros):
+            resources.update(result)
     return resources
 
 
